@@ -1,4 +1,7 @@
-use samlang_ast::mir::{Expression, GenenalLoopVariable, Statement, VariableName};
+use samlang_ast::{
+  hir::BinaryOperator,
+  mir::{Expression, GenenalLoopVariable, Statement, VariableName},
+};
 use samlang_heap::PStr;
 use std::collections::HashSet;
 
@@ -40,7 +43,12 @@ pub(super) fn optimize(
         }
       }
       Statement::Binary(b) => {
-        if expression_is_loop_invariant(&b.e1, &non_loop_invariant_variables)
+        // A division or remainder may trap: it can only run before the loop if it cannot,
+        // since the loop body might not be reached at all, or only after other effects.
+        let may_trap = matches!(b.operator, BinaryOperator::DIV | BinaryOperator::MOD)
+          && !matches!(&b.e2, Expression::Int32Literal(v) if *v != 0 && *v != -1);
+        if !may_trap
+          && expression_is_loop_invariant(&b.e1, &non_loop_invariant_variables)
           && expression_is_loop_invariant(&b.e2, &non_loop_invariant_variables)
         {
           hoisted_stmts.push(stmt);
